@@ -1433,3 +1433,194 @@ def loop_range_negative_step(a, b):
         c += 1
         last = i
     return c, last if c else 0
+
+
+# =================================================================================================
+# 8. third batch: operator precedence, bool/int mixing, views of rows, snapshots, closures over mutable state
+# =================================================================================================
+
+_GLOBAL_OFFSET = 7
+
+
+@prog(I(-7, 7), I(1, 4))
+def neg_floordiv_precedence(a, b):
+    return -a // b, -(a // b), a // -b, (-a) % b, a % -b, -a % b, a - a // b * b, 2 ** 3 ** 1 - a
+
+
+@prog(B(), I(-2, 2))
+def bool_int_compare(p, a):
+    return p == 1, p < a, p == a, a == True, p != 0, (p + 1) // 2, p * a, max(p, a), p is True if False else 0  # noqa: E712
+
+
+@prog(I(0, 7), I(0, 7), unsupported=True)
+def int_bit_ops(a, b):
+    return a & 1, a | b, a ^ b, a << 1, a >> 1
+
+
+@prog(R(0, 4, 2))
+def while_real_halving(x):
+    n = 0
+    while x > 0.5:
+        x /= 2
+        n += 1
+    if x:
+        n += 10
+    return n, x
+
+
+@prog(SLI(3), I(-4, 4), I())
+def symlist_augassign_subscript(xs, i, v):
+    xs[i] += v
+    xs[0] *= 2
+    return xs
+
+
+@prog(LI(3), I())
+def pylist_alias_in_containers(xs, a):
+    d = {"k": xs}
+    pair = (xs, [a])
+    d["k"].append(a)
+    pair[1].append(xs[0])
+    xs[0] += 1
+
+    def push(v):
+        xs.append(v)
+        return len(xs)
+
+    n = push(a * 2)
+    return xs, d["k"][-1], pair[1], n, d["k"] is xs
+
+
+@prog(NPI(2, 3), I())
+def np_row_view_own_write(a, v):
+    r = a[0]
+    r[1] = v
+    r += 1
+    return r
+
+
+@prog(NPI(2, 3), I(), unsupported=True)
+def np_chained_index_write(a, v):
+    a[0][1] = v
+    return a
+
+
+@prog(NPI(2, 3), I())
+def np_reshape_then_write(a, v):
+    b = a.reshape(3, 2).copy()
+    b[0, 1] = v
+    b[2, 0] += v
+    return b, a
+
+
+@prog(NPI(3), NPI(3))
+def np_result_snapshot(a, b):
+    c = a + b
+    d = a * 2
+    m = a > b
+    b[0] = 100
+    a[1] = -100
+    a += 5
+    return c, d, m, a, b
+
+
+@prog(SLIn(3))
+def symlist_to_array_and_back(xs):
+    a = np.asarray(xs)
+    b = a * 2 + 1
+    return b, b.tolist() if False else len(b), list(xs), a[::2]
+
+
+@prog(I(), I(), I())
+def dict_iteration_symbolic_values(a, b, c):
+    d = {"x": a, "y": b}
+    d["z"] = c
+    tot = 0
+    for k, v in d.items():
+        if k != "y":
+            tot += v
+    keys = [k for k in d]
+    best = max(d.values())
+    return tot, keys, best, {k: v * 2 for k, v in d.items()}, "x" in d, "q" in d
+
+
+@prog(SLI(3), I())
+def star_args_from_symlist(xs, a):
+    def f(p, q, r, s=0):
+        return p - q + r * s
+
+    return f(*xs), f(*xs, a), f(*xs[:2], r=a)
+
+
+@prog(I(), R())
+def global_and_isinstance_tuple(a, x):
+    def num(v):
+        return isinstance(v, (int, float)) and not isinstance(v, bool)
+
+    return a + _GLOBAL_OFFSET, num(a), num(x), num(a > 0), num(None), num("s")
+
+
+@prog(NPI(2, 3), NPI(2, 3))
+def np_iterate_rows_zip(a, b):
+    out = []
+    for i, (ra, rb) in enumerate(zip(a, b)):
+        out.append((ra * rb).sum() + i)
+    return out, [int(x) for x in a[0]]
+
+
+@prog(TTR(2, 3), R())
+def t_scalar_sym_ops(x, s):
+    return x * s, x + s, s - x, x / 2 + s, torch.clamp(x, min=s), torch.where(x > s, x, s * 1.0)
+
+
+@prog(TTI(3, 2))
+def t_transpose_flatten_roundtrip(x):
+    return x.T.flatten(), x.T.reshape(3, 2), x.flatten().reshape(2, 3).T, x.T.T, x.T[1, 2]
+
+
+@prog(I(-2, 2), I(-2, 2))
+def finally_return_overrides(a, b):
+    def f():
+        try:
+            return 10 // a
+        finally:
+            if b > 0:
+                return -1  # noqa: B012
+
+    return f()
+
+
+@prog(R(1, 3, 2), R(-2, 2, 2))
+def pow_symbolic_exponent(x, y):
+    return x ** y, x ** 0.5, x ** 2.0
+
+
+def _filled(s, f):
+    import z3
+    from pyvc.values import lift
+
+    j = z3.Int("j!inv")
+    return z3.ForAll([j], z3.Implies(z3.And(j >= 0, j < lift(s.k)), lift(s.out.fn(j)) == f(j)))
+
+
+@prog(I(0, 4), loops={0: _LS(inv=lambda s: [("filled", _filled(s, lambda j: 2 * j))])},
+      bad_loops={"wrong-values": {0: _LS(inv=lambda s: [("filled", _filled(s, lambda j: 2 * j + 1))])}})
+def loop_fill_list_inplace(n):
+    out = [0] * n
+    for i in range(n):
+        out[i] = i * 2
+    return out
+
+
+@prog(NPIn(4), loops={0: _LS(inv=lambda s: [("filled", _filled(s, lambda j: lift_elem(s.pre.a, j) + 1))])})
+def loop_array_inplace_from_input(a):
+    out = a.copy()
+    for i in range(len(a)):
+        out[i] = a[i] + 1
+    return out
+
+
+def lift_elem(arr, j):
+    from pyvc.values import lift
+
+    return lift(arr.fn(j))
